@@ -13,13 +13,21 @@ def pV2 : Parser (V2 Float) := fun ts => do
   let (b, ts) ← pFloat ts
   pure (⟨a, b⟩, ts)
 
-def moreOps : List String := ["scalealongnormal", "scale2d", "normalize2d", "copyattr", "cropnode", "alongnormalnode", "translatenode", "rotatenode", "scalenode"]
+def moreOps : List String := ["scalealongnormal", "scale2d", "normalize2d", "copyattr", "cropnode", "alongnormalnode", "translatenode", "rotatenode", "scalenode", "vertexcolorspace", "vertexcolorspacet"]
 
 /-- an optional token: `-` = the node input is not wired (nil) -/
 def pOptTok : Parser (Option String)
   | "-" :: ts => some (none, ts)
   | t :: ts => some (some t, ts)
   | [] => none
+
+/-- `colors.SRGBToLinear` (math/colors/space.go:7) at Float; `Float.pow` is libm's pow, Go's `math.Pow` is its own
+    implementation: the two ops using these are compared within a few ulps (cfg `ulps`) -/
+def srgbToLinear (c : Float) : Float :=
+  if c < 0.04045 then c * 0.0773993808 else Float.pow (c * 0.9478672986 + 0.0521327014) 2.4
+/-- `colors.LinearToSRGB` (space.go:16) -/
+def linearToSRGB (c : Float) : Float :=
+  if c < 0.0031308 then c * 12.92 else 1.055 * (Float.pow c 0.41666) - 0.055
 
 def applyMore (op : String) (ts : List String) : Option (Option (List MV)) :=
   match op with
@@ -81,6 +89,14 @@ def applyMore (op : String) (ts : List String) : Option (Option (List MV)) :=
       let (a, ts) ← pV3 ts
       let (m, _) ← pMesh ts
       oneO (m.scaleNode attr o a)
+  | "vertexcolorspace" => do     -- name mode mesh
+      let (name, ts) ← pTok ts; let (mode, ts) ← pNat ts
+      let (m, _) ← pMesh ts
+      oneO (m.vertexColorSpace srgbToLinear linearToSRGB name mode)
+  | "vertexcolorspacet" => do    -- name skip mode mesh
+      let (name, ts) ← pTok ts; let (skip, ts) ← pNat ts; let (mode, ts) ← pNat ts
+      let (m, _) ← pMesh ts
+      oneO (m.vertexColorSpaceT srgbToLinear linearToSRGB name (skip != 0) mode)
   | _ => none
 
 end Driver.MeshIO
